@@ -292,19 +292,28 @@ fn store_hist(case: &Value) -> Value {
                 let r = rt.block_on(async { rs::put_verified(&mut store, rec, RecordType::Chunk) });
                 match r {
                     Ok(()) => {
-                        // the driver's part: the write reports back, the key is marked as stored
-                        let n = rt.block_on(async {
-                            tokio::time::timeout(std::time::Duration::from_secs(5), rx_cmd.recv()).await
-                        });
+                        // the driver's part: the write reports back, the key is marked as stored.
+                        // The write and the report are tasks on this current-thread runtime, so yielding
+                        // runs them to completion; when nothing was spawned (the same bytes were still in
+                        // the read cache and put_verified returned early) no report ever comes: outcome 2.
+                        let mut n = None;
+                        for _ in 0..400 {
+                            rt.block_on(async { tokio::task::yield_now().await });
+                            if let Ok(c) = rx_cmd.try_recv() {
+                                n = Some(c);
+                                break;
+                            }
+                        }
                         match n {
-                            Ok(Some(LocalSwarmCmd::AddLocalRecordAsStored { key, record_type })) => {
+                            Some(LocalSwarmCmd::AddLocalRecordAsStored { key, record_type }) => {
                                 rt.block_on(async { rs::mark_as_stored(&mut store, key, record_type) })
                             }
-                            Ok(Some(LocalSwarmCmd::RemoveFailedLocalRecord { key })) => {
+                            Some(LocalSwarmCmd::RemoveFailedLocalRecord { key }) => {
                                 rt.block_on(async { store.remove(&key) });
                                 res = json!(7);
                             }
-                            _ => res = json!(8),
+                            Some(_) => res = json!(8),
+                            None => res = json!(2),
                         }
                     }
                     Err(libp2p::kad::store::Error::MaxRecords) => res = json!(1),
